@@ -301,6 +301,25 @@ def codecUnpack (typ : String) (rd : String) : String :=
       | none => "none"
   | _, _ => "bad-op"
 
+def showRRm (r : MU.RRm) : String :=
+  let nm := if r.name.isEmpty then "-" else hex r.name
+  let body := match r.body with
+    | none => "~"
+    | some _ => match MU.repackRR r with
+      | some w => hex w
+      | none => "E"
+  s!"{nm}/{r.typ}/{r.cls}/{r.ttl}/{r.rdlen}/{body}"
+
+def showMsgM (m : MU.MsgM) : String :=
+  let b (x : Bool) := if x then "1" else "0"
+  let h := m.hdr
+  let flags := b h.response ++ b h.authoritative ++ b h.truncated ++ b h.recursionDesired ++ b h.recursionAvailable ++
+    b h.zero ++ b h.authenticatedData ++ b h.checkingDisabled
+  let qs := m.question.map (fun q => (if q.name.isEmpty then "-" else hex q.name) ++ s!"/{q.typ}/{q.cls}")
+  let sec (tag : String) (l : List MU.RRm) := s!"{tag}:{l.length}" :: l.map showRRm
+  " ".intercalate ([if m.err then "err" else "ok", s!"{m.id}", s!"{h.opcode}", s!"{m.rcode}", flags, s!"q:{qs.length}"] ++ qs ++
+    sec "an" m.answer ++ sec "ns" m.ns ++ sec "ex" m.extra)
+
 /-- one operation: op name and arguments → one canonical output line -/
 def runOp (op : String) (args : List String) : String :=
   match op, args with
@@ -477,6 +496,10 @@ def runOp (op : String) (args : List String) : String :=
   | "spec.zone", args => zoneOp true args
   | "codec.pack", typ :: vals => codecPack typ vals
   | "codec.unpack", [typ, rd] => codecUnpack typ rd
+  | "msg.unpack", [m] =>
+    match unhex m with
+    | some msg => (match MU.unpackMsg msg with | some r => showMsgM r | none => "hdr-err")
+    | none => "bad-op"
   | "zone.text", [origin, dttl, t] =>
     match unhex origin, unhex t with
     | some org, some text =>
